@@ -14,7 +14,8 @@ PROPS['C07'] = dict(
     units=['k_chk'], level='proof', design_ref='6/C07',
     technique='CBMC dfcc function contract + loop contracts (lane-decomposed inductive invariant, lock-step ghost byte sum) on calc_chksum extracted from the clang AST',
     text='Unbounded proof for every buffer content, every size up to 2^31-1 and every offset/length pair: the result equals the '
-         'lock-step ghost sum of exactly bytes [offset, offset+n) mod 256, and every read is inside an object of exactly that extent.',
+         'lock-step ghost sum of exactly bytes [offset, offset+n) mod 256, and every read is inside an object of exactly that extent. The std::string overload '
+         'is proved (modularly, from the pointer overload\'s contract) to hand over exactly the string\'s bytes, size, offset and length.',
     note='sz capped at 2^31-1 (int len); ghost spec is the byte-at-a-time running sum; unaligned 32-bit loads assumed defined (x86-64)',
     trusted_base=COMMON_TRUST,
     explanation='Message::calc_chksum is extracted from the clang AST on each run; its contract (requires is_fresh(from, offset+n); ensures '
@@ -62,13 +63,55 @@ PROPS['C10'] = dict(
               'length; std::lower_bound / std::binary_search are assumed ISO contracts with a ghost partition index; membership by a single ghost witness',
     text='Proof for every strictly sorted table of 1..2^24 ints or chars, every probe value and every witness position: a set-realm index is -1 or a valid '
          'index whose element equals the value (idx_exact), a member always gets its own index (idx_member), the index is a valid subscript of '
-         '_descriptions[_sz] (idx_in_bounds); a range-realm index is reported only for values inside [lo, hi]; is_valid equals set membership / range inclusion.',
+         '_descriptions[_sz] (idx_in_bounds); a range-realm index is reported only for values inside [lo, hi]; is_valid equals set membership / range inclusion. '
+         'The per-field wrappers Field<int|char|Boolean, tag>::get_rlm_idx()/is_valid() (what MessageBase::print calls) look up the field\'s own value -- for Boolean its wire character Y/N -- in the field\'s own realm, -1/true without a realm.',
     note='std::lower_bound / std::binary_search contracts are ASSUMED (model bodies); "tables are strictly sorted" and "_descriptions has _sz entries" are '
          'facts about f8c output, not proved; only the int and char instantiations are verified (f8String / fp_type share the text, not the proof); '
          'the printer MessageBase::print (iostream) is not under contract: it subscripts _descriptions with exactly the index proved in bounds here',
     trusted_base=COMMON_TRUST,
     explanation='The real template bodies are extracted per instantiation; the table lives behind a malloc of symbolic size, so any read outside [0,_sz) is a bounds '
                 'violation; sortedness is instantiated at (witness, partition point), which is the only instance the proof uses.',
+)
+
+PROPS['C12'] = dict(
+    units=['k_tab', 'k_pset'], level='proof', design_ref='6/C12',
+    technique='CBMC contracts (harness pre/postconditions, dfcc loop contracts on the two index-building loops) on GeneratedTable::_find/find_ptr/find_pair_ptr/find_ref/at for '
+              'both instantiations the library uses, F8MetaCntx::find_be with the constructor\'s index loop, FieldTrait_Hash_Array + Presence::find, and Presence '
+              'insert/find/clear/at, all extracted from the clang AST; representation invariant of the sorted set proved preserved by every operation (inductive step '
+              'of the history lemma); STL algorithms, strcmp, memcpy/memmove are assumed model bodies with ghost witnesses',
+    text='Proof for every strictly sorted table of 1..2^20 entries (field table: unsigned keys; message table: C-string keys ordered by strcmp), every probe key and every '
+         'witness position: a lookup hit returns exactly the entry whose key equals the probe, a present key is always found, the result points into the table, '
+         'find_ref throws only InvalidMetadata and only on a miss, at() is bounds-checked. F8MetaCntx::find_be after the constructor\'s index loop returns the entry with that '
+         'tag or null (tables up to 2^20 entries, tags 0..65535). FieldTrait_Hash_Array + Presence::find: hit exactly for present tags, end() otherwise, for every '
+         'non-empty table of up to 65536 traits. Insertable Presence: find/at/size correct under the representation invariant (capacity >= 1, size <= capacity, storage of '
+         'exactly capacity elements, strictly sorted), and insert and clear re-establish it: insert refuses a duplicate and leaves the set unchanged, otherwise size+1, every old '
+         'element keeps its content at its (shifted) position, the new element is at the partition point, order is strict, the returned iterator points at the new element '
+         '-- on all three code paths (first element, room left, reallocation) -- which is the inductive step covering every sequence of inserts, lookups and clears. '
+         'NOT decided: the reverse name tables (std::map with a strcmp comparator: libstdc++ code), the generic presorted_set template (only its FieldTrait specialisation is '
+         'instantiated anywhere), Presence constructors/copy, FieldTraits wrapper methods.',
+    note='std::lower_bound / equal_range / fill, strcmp, memcpy / memmove, operator new[] are ASSUMED (model bodies, listed); "generated tables are strictly sorted, unique and non-empty" is a fact '
+         'about f8c output; memcpy/memmove model = exact copy of two ghost-watched elements + one arbitrary other element havocked (byte-level havoc of a symbolic range is intractable in CBMC); '
+         'F8MetaCntx constructor: only the two index initialisers and the first three body statements are extracted (the std::function / std::map members are dropped)',
+    trusted_base=COMMON_TRUST,
+    explanation='Tables live behind mallocs of symbolic size so any access outside is a bounds violation; membership is a single ghost witness index and sortedness is instantiated at '
+                '(witness, partition point) or per loop iteration; the two index-building loops carry dfcc loop contracts (hit and miss invariants over a ghost watched slot).',
+)
+
+PROPS['C29'] = dict(
+    units=['k_rot', 'k_rot_fp'], level='proof', design_ref='6/C29',
+    technique='CBMC dfcc loop contracts on the two loops of the rotation block of FileLogger::rotate and of the purge block of FilePersister::initialise, extracted from the '
+              'clang AST of runtime/logger.cpp and runtime/filepersist.cpp; std::string / ostringstream / vector<string> / rename are assumed models (file name = generation '
+              'number, vector subscripts require index < size) whose call sites become named obligations',
+    text='Proof for every rotation count 0..2^32-1, every flag word and force value (no unwinding: both loops carry loop contracts): the name list holds the live name followed by '
+         'generations 1..min(count,1024) in order and never more than 1025 entries; every vector subscript in the rename loop is below size() (the obligation that failed for counts '
+         'above 1024 before the fix); the rename calls are exactly name.(k-1) -> name.k for k = min(count,1024) down to 1, in that order, with no other name touched; an append-mode log is '
+         'not rotated unless forced; the call leaves the logger\'s configuration (flags, count, path) unchanged. Same for the file store\'s purge rotation with data and index files '
+         'shifted in lock step. NOT decided: the contents of the files (rename(2) semantics), directory creation and the re-opening of the live file.',
+    note='only the rotation blocks are extracted (statement selection; the rest of the two functions is path handling, stream opening and logging); std::string, std::ostringstream, '
+         'std::vector<std::string> and rename are ASSUMED models; failures of rename are ignored by the code and not treated as violations',
+    trusted_base=COMMON_TRUST,
+    explanation='A file name is modelled by its generation number, so "name.k gets what name.(k-1) held" is the obligation dst == src+1 at every rename call, and the order/extent of the '
+                'shift is the loop invariant over a ghost rename log.',
 )
 
 # ---------------------------------------------------------------- native replayers
@@ -141,13 +184,36 @@ def _replay_k_date(oid, inputs, trace, wd):
 
 def _replay_k_realm(oid, inputs, trace, wd):
     exe = _rp.build_native(os.path.join(_rp.VERIF, 'replay', 'k_realm.cpp'), os.path.join(wd, 'replay_k_realm'))
-    which = ('range_member' if '.range.' in oid and 'idx_member' in oid else 'range_valid' if 'range_inclusion' in oid
+    which = ('field' if '.field.' in oid or 'h_field_' in oid else 'range_member' if '.range.' in oid and 'idx_member' in oid else 'range_valid' if 'range_inclusion' in oid
              else 'range_first' if '.range.' in oid else 'set')
     rc, o = _rp.run_native(exe, ['search', which])
     return dict(steps=[dict(kind='native contract-checking search: every strictly sorted table over an 8-letter alphabet x every probe value (%s realms, int and char)' % which,
                             rc=rc, output=o[-1500:])], reproduced=rc != 0)
 
 
+def _replay_k_tab(oid, inputs, trace, wd):
+    exe = _rp.build_native(os.path.join(_rp.VERIF, 'replay', 'k_tab.cpp'), os.path.join(wd, 'replay_k_tab'))
+    which = 'gt' if '.gt_' in oid or 'gt_' in oid.split(':')[0] else 'findbe' if 'find_be' in oid or 'metacntx' in oid else 'ftha' if 'ftha' in oid else 'pset' if 'pset' in oid or 'ps_' in oid else 'all'
+    rc, o = _rp.run_native(exe, ['search', which])
+    return dict(steps=[dict(kind='native contract-checking search (%s): small-alphabet exhaustive tables / operation sequences against a reference map, ASan+UBSan' % which,
+                            rc=rc, output=o[-1500:])], reproduced=rc != 0)
+
+
+def _replay_k_rot(oid, inputs, trace, wd):
+    R = _rp.astdump.REPO
+    exe = _rp.build_native(os.path.join(_rp.VERIF, 'replay', 'k_rot.cpp'), os.path.join(wd, 'replay_k_rot'),
+                           extra=['-D_GLIBCXX_ASSERTIONS', R + '/runtime/logger.cpp', R + '/runtime/filepersist.cpp', R + '/runtime/persist.cpp', R + '/runtime/f8utils.cpp', '-lz'],
+                           sanitize=True, timeout=1200)
+    which = 'persister' if 'purge' in oid or 'filepersister' in oid else 'logger' if 'rotate' in oid else 'all'
+    rc, o = _rp.run_native(exe, ['search', which, os.path.join(wd, 'rotscratch')], timeout=900)
+    return dict(steps=[dict(kind='native contract-checking search (%s): real rotate()/initialise(purge) on a scratch directory, counts {0..9,1023,1024,1025,1100} x pre-existing generation sets, '
+                                 'ASan + _GLIBCXX_ASSERTIONS' % which, rc=rc, output=o[-1500:])], reproduced=rc != 0)
+
+
+replayers['k_rot'] = _replay_k_rot
+replayers['k_rot_fp'] = _replay_k_rot
+replayers['k_tab'] = _replay_k_tab
+replayers['k_pset'] = _replay_k_tab
 replayers['k_realm'] = _replay_k_realm
 replayers['k_int'] = _replay_k_int
 replayers['k_date'] = _replay_k_date
